@@ -51,8 +51,10 @@ class AddBounceHooks(QHooks):
             (a,) = v
             if isinstance(a, tuple) and a[0] == 'str':
                 return [ord(c) for c in a[1]]
-        if x.args[1].path() == 'P:report':
-            return list(self.report)
+            if a == ('&', 'REP[0]'):
+                return list(self.report)
+            if a == ('&', 'RCP[0]'):
+                return [ord('R'), NL]          # the raw recipient (not passed through stripvdomprepend)
         raise AnalysisBroken('addbounce: cannot model appended data %s' % x.args[1].src())
 
     def prim_stralloc_copys(self, E, x, args):
@@ -62,12 +64,16 @@ class AddBounceHooks(QHooks):
         return self._set(E, self._bytes(E, x, args), True)
 
     def prim_stripvdomprepend(self, E, x, args):
+        v = args[0]
+        self.stripped = v is not TOP and v == fs(('&', 'RCP[0]'))
         return [Outcome(ret=fs(('str', 'r\n')))]
 
     def prim_strlen(self, E, x, args):
-        if x.args[0].path() == 'P:report':
+        if args[0] is not TOP and args[0] == fs(('&', 'REP[0]')):
             return [Outcome(ret=fs(len(self.report)))]
         return [Outcome(ret=TOP)]
+
+    prim_str_len = prim_strlen
 
     def prim_nomem(self, E, x, args):
         return [Outcome(ret=TOP)]
@@ -91,7 +97,7 @@ class AddBounceHooks(QHooks):
         s = ''.join(chr(b) for b in t)
         # exactly one paragraph: "<" recipient-without-newlines ">:\n" body "\n\n" with no blank line inside
         head_end = s.find('>:\n')
-        self.site('recipient-line-has-no-newline', x, head_end > 0 and '\n' not in s[:head_end], 'recipient %r yields head %r' % ('r\\n', s[:head_end + 3]), E)
+        self.site('recipient-line-has-no-newline', x, head_end > 0 and '\n' not in s[:head_end] and s.startswith('<r'), 'recipient %r yields head %r' % ('r\\n', s[:head_end + 3]), E)
         idx = s.find('\n\n')
         self.site('paragraph-ends-with-a-blank-line', x, idx >= 0 and s.endswith('\n\n'), 'text for report %r ends with %r' % (rep, s[-3:]), E)
         # nothing but newlines after the first blank line: report text cannot start a new paragraph
@@ -104,10 +110,13 @@ class AddBounceHooks(QHooks):
     def prim_close(self, E, x, args):
         return [Outcome(ret=TOP)]
 
+    def tracked_global(self, path):
+        return path.startswith('REP[') or path.startswith('RCP[') or super().tracked_global(path)
+
     def materialize(self, E, path):
-        if path.startswith('addbounce::P:report['):
-            k = int(path[len('addbounce::P:report['):-1])
-            return fs(self.report[k] if k < len(self.report) else 0)
+        if path.startswith('REP['):
+            k = int(path[4:-1])
+            return fs(self.report[k] if 0 <= k < len(self.report) else 0)
         return TOP
 
 
@@ -308,13 +317,19 @@ def run(ctx):
     fa = prog.fn('addbounce', 'qmail-send.c')
     n = 0
     sites = {}
+    stripped_all = True
     RL = ctx.deep(3, 5)
     for report in itertools.product((NL, ord('x')), repeat=RL):
         for rlen in range(0, RL + 1):
             H = AddBounceHooks(report[:rlen])
             eng = Engine(db, prog, H)
-            eng.run(fa, {})
+            fid = eng.frame_id(fa)
+            pt = [p_ for p_ in fa.params if 'char' in fa.param_types.get(p_, '')]
+            if len(pt) != 2:
+                raise AnalysisBroken('addbounce: recipient and report parameters not found')
+            eng.run(fa, {'%s::%s' % (fid, pt[0]): fs(('&', 'RCP[0]')), '%s::%s' % (fid, pt[1]): fs(('&', 'REP[0]'))})
             rep.count_states(eng.states, eng.transitions)
+            stripped_all = stripped_all and getattr(H, 'stripped', False)
             if H.final is None:
                 raise AnalysisBroken('addbounce: open_append not reached')
             n += 1
@@ -327,7 +342,6 @@ def run(ctx):
     r3.expect_min(4)
     rep.exhaustive_rules.append('C14.3-one-paragraph-per-recipient')
     # stripvdomprepend is applied to the recipient
-    sv = fa.calls('stripvdomprepend')
-    r3.check(bool(sv) and sv[0].args[0].path() == 'P:recip', 'virtual-domain-prefix-removed-from-the-recipient', fa.unit + ':addbounce', '')
+    r3.check(stripped_all, 'virtual-domain-prefix-removed-from-the-recipient', fa.unit + ':addbounce', 'the recipient named in the paragraph must be the result of stripvdomprepend(recipient)')
     rep.assume('paragraph integrity is decided on a small geometry (3-byte reports over {newline, other}); the code touches report bytes only through comparisons with newline',
                'the chain message -> bounce -> double bounce through the real queue is not explored')
